@@ -1166,20 +1166,20 @@ def e2e_cells(ctx, n):
     # the corpus witnesses run first; then one cell per remaining dimension; cells that repeat a corpus witness with other
     # details come last (the quick tier stops before them), random cells only in the thorough tier
     cells = corpus_cells() + [
-        {"pkg_index": 1, "resp": "empty", "meta": "rel_imported", "annotated": True, "order": "types-first"},
         {"pkg_index": 2, "resp": "rel_same", "meta": "rel_same", "annotated": False, "order": "types-first"},
         {"pkg_index": 0, "resp": "missing", "meta": "rel_same", "annotated": True, "order": "types-first"},
+        {"pkg_index": 2, "resp": "fq_same", "meta": "rel_imported", "annotated": True, "order": "svc-first", "internal": "some", "raw_sibling": True},
+        {"pkg_index": 1, "resp": "fq_imported", "meta": "rel_same", "annotated": True, "order": "types-first", "rest_async": True, "ops_http": "multi"},
+        {"pkg_index": 2, "resp": "empty", "meta": "rel_same", "annotated": True, "order": "svc-first", "twin_meta": "fq_notimported"},
+        {"pkg_index": 1, "resp": "fq_upper_pkg", "meta": "rel_notimported", "annotated": True, "order": "types-middle", "selective": True},
+        {"pkg_index": 1, "resp": "empty", "meta": "rel_imported", "annotated": True, "order": "types-first"},
         {"pkg_index": 1, "resp": "fq_nested", "meta": "empty_elsewhere", "annotated": True, "order": "svc-first"},
         {"pkg_index": 2, "resp": "fq_notimported", "meta": "rel_notimported", "annotated": True, "order": "svc-first", "raw_sibling": True},
         {"pkg_index": 1, "resp": "fq_otherpkg", "meta": "fq_transitive", "annotated": True, "order": "svc-first", "ops_http": True},
         {"pkg_index": 2, "resp": "unknown_rel", "meta": "rel_same", "annotated": True, "order": "types-first"},
         {"pkg_index": 0, "resp": "rel_notimported", "meta": "fq_notimported", "annotated": True, "order": "svc-first", "types_name": "operation"},
         {"pkg_index": 2, "resp": "rel_notimported", "meta": "rel_same", "annotated": True, "order": "svc-first", "flat": "operation"},
-        {"pkg_index": 2, "resp": "fq_same", "meta": "rel_imported", "annotated": True, "order": "svc-first", "internal": "some", "raw_sibling": True},
         {"pkg_index": 1, "resp": "fq_subpkg_imported", "meta": "rel_subpkg_notimported", "annotated": True, "order": "types-first"},
-        {"pkg_index": 2, "resp": "empty", "meta": "rel_same", "annotated": True, "order": "svc-first", "twin_meta": "fq_notimported"},
-        {"pkg_index": 1, "resp": "fq_upper_pkg", "meta": "rel_notimported", "annotated": True, "order": "types-middle", "selective": True},
-        {"pkg_index": 1, "resp": "fq_imported", "meta": "rel_same", "annotated": True, "order": "types-first", "rest_async": True, "ops_http": "multi"},
         {"pkg_index": 0, "resp": "empty", "meta": "rel_nested_imported", "annotated": True, "order": "types-first", "flat": "operation_async"},
         {"pkg_index": 0, "resp": "rel_notimported", "meta": "fq_same", "annotated": True, "order": "svc-first"},
         {"pkg_index": 0, "resp": "rel_same", "meta": "missing", "annotated": True, "order": "svc-first"},
@@ -1261,7 +1261,7 @@ def run(ctx):
     t = threading.Thread(target=schema)
     t.start()
     try:
-        run_e2e(ctx, e2e_cells(ctx, ctx.n(27, 110)), tier_all=not ctx.quick())
+        run_e2e(ctx, e2e_cells(ctx, ctx.n(23, 110)), tier_all=not ctx.quick())
     finally:
         t.join()
     if errs:
